@@ -88,15 +88,17 @@ def check_config(rep, prog):
     root = fb.root
     sl = fb.sl[root.path]
     spans = {"colour": [], "depth": []}
-    for bi, t in root.calls(lambda c: facts.callee_matches(c, "Iterator::zip")):
-        a = t["args"][1]
-        pl = a.get("m") or a.get("c")
-        if pl and not pl["p"]:
-            ty = root.locals[pl["l"]]
-            if ty == "&mut [u32]":
-                spans["colour"].append((bi, sl.operand(a)))
-            elif ty == "&mut [f32]":
-                spans["depth"].append((bi, sl.operand(a)))
+    # the spans are whatever `&mut [u32]` / `&mut [f32]` values are cut out of the buffers by a range index (however they are then
+    # paired with the fragments: zip chains, a zip of two iter_mut()s, a for loop)
+    for bi, t in root.calls(lambda c: facts.callee_matches(c, "IndexMut<I> for [T]>::index_mut", "core::ops::index::IndexMut::index_mut")):
+        dst = t.get("dest")
+        if not dst or dst["p"]:
+            continue
+        ty = root.locals[dst["l"]]
+        idx_t = T.strip(sl.operand(t["args"][1]), sites=True, refs=True)
+        is_range = (idx_t[0] == "agg" and "Range" in idx_t[1]) or (idx_t[0] == "call" and idx_t[1].split(" => ")[0].endswith("Clone::clone")) or "Range" in T.show(idx_t)[:40]
+        if ty in ("&mut [u32]", "&mut [f32]") and is_range:
+            spans["colour" if ty == "&mut [u32]" else "depth"].append((bi, ("call", t["callee"]["path"], tuple(sl.operand(a) for a in t["args"]), None)))
     rep.floor("C06.W3.spans", len(spans["colour"]) + len(spans["depth"]), 2, "buffer spans zipped with fragments()")
 
     def norm(t):
@@ -129,34 +131,53 @@ def check_config(rep, prog):
     for bad in res["bad"]:
         rep.violate("C06.W4", "W4|%s" % bad["case"], dt.where(), bad["msg"], config=cfg)
 
-    # ---- W5 sort placement in render()
+    # ---- W5 sort placement in render(): whatever local function sorts the clip output (depth_sort(tris, mode), or one function per
+    # mode) is called under the Some(depth_sort) arm, after clipping and before the raster loop; every mode is served
+    from .rules_C01 import _only_sorts
     rn = prog.body(RENDER)
     rsl = T.Slicer(rn)
-    sort_calls = list(rn.calls(lambda c: facts.callee_matches(c, "render::depth_sort")))
     clip_calls = list(rn.calls(lambda c: facts.callee_matches(c, "view_frustum::clip")))
     fill_calls = list(rn.calls(lambda c: facts.callee_matches(c, "raster::tri_fill")))
     rep.floor("C06.W5.anchors", min(len(clip_calls), len(fill_calls)), 1, "clip and tri_fill calls in render()")
+    clip_out = T.strip(rsl.operand(clip_calls[0][1]["args"][1]), refs=True)
+    sort_calls = []
+    for bi, t in rn.calls():
+        if not t["args"]:
+            continue
+        a0 = T.strip(rsl.operand(t["args"][0]), refs=True)
+        nm = ((t["callee"].get("res") or {}).get("path") or t["callee"]["path"])
+        if T.contains(a0, lambda s_: s_ == clip_out) and prog.lookup(nm) is not None and _only_sorts(prog, nm):
+            sort_calls.append((bi, t, nm))
     some_e, none_e = G.option_edges(rn, rsl, lambda p: p[0] == "field" and p[2] == "Context.depth_sort")
+    DS = "retrofire_core::render::ctx::DepthSort"
+    inner = lambda p: p[0] == "field" and p[1][0] == "downcast" and T.contains(p, lambda f: f[0] == "field" and f[2] == "Context.depth_sort")  # noqa: E731
+    mode_edges = {m: G.variant_edges(prog, rn, rsl, inner, DS, m) for m in ("FrontToBack", "BackToFront")}
     if not sort_calls:
-        rep.violate("C06.W5", "W5|no-sort", rn.where(), "render() never calls depth_sort: the depth_sort setting has no effect", config=cfg)
-    for bi, t in sort_calls:
+        rep.violate("C06.W5", "W5|no-sort", rn.where(), "render() never sorts the clip output: the depth_sort setting has no effect", config=cfg)
+    served = {}
+    for bi, t, nm in sort_calls:
         ok_guard = bool(some_e) and G.guarded_by(rn, bi, some_e)
-        arg = rsl.operand(t["args"][0])
-        dterm = rsl.operand(t["args"][1])
-        clip_out = T.strip(rsl.operand(clip_calls[0][1]["args"][1]), refs=True) if clip_calls else None
-        same_vec = clip_out is not None and T.contains(T.strip(arg, refs=True), lambda s: s == clip_out)
-        payload = T.contains(dterm, lambda s: s[0] == "downcast" and s[2] == "Some" and T.contains(s[1], lambda f: f[0] == "field" and f[2] == "Context.depth_sort"))
         after_clip = all(rn.dominates(cb, bi) for cb, _ in clip_calls)
-        before_fill = all(not (fbb in rn.reachable(0, removed_blocks=[bi]) and False) for fbb, _ in fill_calls)
-        # sort must not be reachable from the rasterisation loop (i.e. it happens once, before)
         in_loop = any(bi in rn.reachable_from_succs(fbb) for fbb, _ in fill_calls)
-        rep.inst("C06.W5", "depth_sort call at %s: under Some(depth_sort) edge=%s, sorts clip output=%s, passes payload=%s, after clip=%s, outside raster loop=%s"
-                 % (rn.where(bi, None), ok_guard, same_vec, payload, after_clip, not in_loop), config=cfg)
-        if not (ok_guard and same_vec and payload and after_clip and not in_loop):
+        if len(t["args"]) >= 2:
+            dterm = rsl.operand(t["args"][1])
+            payload = T.contains(dterm, lambda s_: s_[0] == "downcast" and s_[2] == "Some" and T.contains(s_[1], lambda f: f[0] == "field" and f[2] == "Context.depth_sort"))
+            modes = ("FrontToBack", "BackToFront")
+        else:
+            modes = tuple(m for m, es in mode_edges.items() if es and G.guarded_by(rn, bi, es))
+            payload = len(modes) == 1
+        for m in modes:
+            served.setdefault(m, []).append((nm, len(t["args"]) >= 2))
+        rep.inst("C06.W5", "sort of the clip output by %s at %s: under Some(depth_sort) edge=%s, mode %s, after clip=%s, outside raster loop=%s"
+                 % (nm.rsplit("::", 1)[-1], rn.where(bi, None), ok_guard, "passed as argument" if len(t["args"]) >= 2 else "/".join(modes) or "UNDETERMINED", after_clip, not in_loop), config=cfg)
+        if not (ok_guard and payload and after_clip and not in_loop):
             rep.violate("C06.W5", "W5|sort-shape", rn.where(bi, None),
-                        "depth_sort call is not 'if let Some(d) = ctx.depth_sort { depth_sort(&mut <clip output>, d) }' placed between clip and the raster loop "
-                        "(guard=%s same_vec=%s payload=%s after_clip=%s in_loop=%s)" % (ok_guard, same_vec, payload, after_clip, in_loop),
-                        config=cfg)
+                        "the clip output is sorted outside 'if let Some(d) = ctx.depth_sort', without the selected mode, before clipping or inside the raster loop "
+                        "(guard=%s mode=%s after_clip=%s in_loop=%s)" % (ok_guard, payload, after_clip, in_loop), config=cfg)
+    if sort_calls:
+        for m in ("FrontToBack", "BackToFront"):
+            if m not in served:
+                rep.violate("C06.W5", "W5|mode-unserved|%s" % m, rn.where(), "no sort of the clip output is performed for DepthSort::%s" % m, config=cfg)
     # the loop iterates the clip output
     it = list(rn.calls(lambda c: facts.callee_matches(c, "IntoIterator::into_iter")))
     loop_ok = False
@@ -194,12 +215,18 @@ def check_config(rep, prog):
     rep.inst("C06.W6", "uses of `target` in render() family: %d, all Target::rasterize" % n_rast, config=cfg)
     rep.floor("C06.W6", n_rast, 1, "Target::rasterize call sites in render()")
 
-    # ---- W7 comparator of depth_sort
-    ds = prog.body("retrofire_core::render::depth_sort")
-    res7 = ordeval.eval_depth_sort(prog, ds)
-    rep.inst("C06.W7", "abstract evaluation of the depth_sort comparator: %s" % res7["table"], config=cfg)
-    for bad in res7["bad"]:
-        rep.violate("C06.W7", "W7|%s" % bad["case"], ds.where(), bad["msg"], config=cfg)
+    # ---- W7 comparator of the sort function(s), per mode
+    done = set()
+    for m, lst in sorted(served.items()):
+        for nm, has_arg in lst:
+            if (nm, m if not has_arg else "*") in done:
+                continue
+            done.add((nm, m if not has_arg else "*"))
+            ds = prog.lookup(nm)
+            res7 = ordeval.eval_depth_sort(prog, ds, modes=("FrontToBack", "BackToFront") if has_arg else (m,), mode_arg=has_arg)
+            rep.inst("C06.W7", "abstract evaluation of the comparator of %s: %s" % (nm.rsplit("::", 1)[-1], res7["table"]), config=cfg)
+            for bad in res7["bad"]:
+                rep.violate("C06.W7", "W7|%s" % bad["case"], ds.where(), bad["msg"], config=cfg)
 
 
 def check(rep, args):
